@@ -18,6 +18,7 @@ const B: &[&str] = &[
     "pairs_equal_instant_diff_offset", "pairs_ordered", "convert_zone", "accessors", "text_forms", "leap_second_value",
     "replace_some", "replace_none_no_such_value", "replace_none_instant_out_of_range", "replace_in_headroom", "with_year_same_year_headroom",
     "with_time", "step_days_some", "step_days_none", "step_months_some", "step_months_none", "step_from_headroom", "variable_offset_zone",
+    "local_zone_conversions",
 ];
 const FLOOR: &[&str] = B;
 
@@ -722,6 +723,29 @@ fn phase_step_zone(ctx: &Ctx, rep: &Report, bk: usize) {
                     Err(p) => loc.violation(&format!("C04/variable-offset-zone/{}/panic@{}", name, p.site()), json!({"utc": u, "panic": p.to_json()})),
                 }
             }
+            // the wall clock of this instant read back: a unique reading gives the instant; a repeated one
+            // gives both instants earliest first, and earliest()/latest()/single() pick accordingly
+            {
+                let cands = step_candidates(wall);
+                let ln = dt.naive_local();
+                match guard(|| {
+                    let m = StepTz.from_local_datetime(&ln);
+                    (m.clone().earliest().map(|d| d.timestamp()), m.clone().latest().map(|d| d.timestamp()), m.clone().single().map(|d| d.timestamp()), m.map(|d| d.timestamp()))
+                }) {
+                    Ok((e, l, s1, m)) => {
+                        let inst: Vec<i64> = cands.iter().map(|o| wall - *o as i64).collect();
+                        let ok = match inst.len() {
+                            1 => m == MappedLocalTime::Single(inst[0]) && e == Some(inst[0]) && l == Some(inst[0]) && s1 == Some(inst[0]),
+                            2 => m == MappedLocalTime::Ambiguous(inst[0], inst[1]) && e == Some(inst[0]) && l == Some(inst[1]) && s1.is_none() && inst[0] < inst[1],
+                            _ => false,
+                        };
+                        if !ok {
+                            loc.violation("C04/variable-offset-zone/from_local_datetime/earliest-latest-single-do-not-match-the-candidates", json!({"utc": u, "wall": wall, "candidate_instants": inst, "earliest": e, "latest": l, "single": s1}));
+                        }
+                    }
+                    Err(p) => loc.violation(&format!("C04/variable-offset-zone/from_local_datetime/panic@{}", p.site()), json!({"utc": u, "panic": p.to_json()})),
+                }
+            }
             // elapsed-time arithmetic through the zone: every form denotes the instant u + δ and must
             // show it with the offset in force *there* (checked, operator and assigning forms alike)
             let delta = match rng.below(3) {
@@ -778,6 +802,50 @@ fn phase_step_zone(ctx: &Ctx, rep: &Report, bk: usize) {
             loc.nontrivial(h2(91, h2(u as u64, (nd * 31 + nm as u64) * 24 + hh as u64)));
         }
     });
+}
+
+/// Conversions between `DateTime<Local>` and the other zone-aware types in a process whose local
+/// zone is not UTC (a child process started with `TZ` set): every route must keep the instant and
+/// show it with the offset the local zone has there (in-process the local zone of this sandbox is
+/// UTC, where a conversion that drops or keeps the wrong offset cannot be seen).
+fn phase_local_child(ctx: &Ctx, rep: &Report, bk: usize) {
+    use crate::props::tzchild::{self, Ans};
+    let mut loc = rep.local();
+    let zones: [(&str, Option<i32>); 4] = [("VRF-5:30:15", Some(19_815)), ("WST11:22:33", Some(-40_953)), ("EST5EDT,M3.2.0,M11.1.0", None), ("NZST-12NZDT,M9.5.0,M4.1.0/3", None)];
+    for (zi, (tz, fixed)) in zones.iter().enumerate() {
+        let mut rng = Rng::new(ctx.seed, "C04/local-child", zi as u64);
+        let mut q: Vec<(char, i64)> = Vec::new();
+        for _ in 0..ctx.n(300, 20_000) {
+            let u = match rng.below(3) {
+                0 => rng.range(1_600_000_000, 1_700_000_000),
+                1 => *rng.pick(&[1_615_705_200i64, 1_636_264_800, 1_632_578_400, 1_617_458_400]) + rng.range(-90_000, 90_000),
+                _ => rng.range(-2_000_000_000, 4_000_000_000),
+            };
+            q.push(('U', u));
+        }
+        match tzchild::run_child(&ctx.work_dir, &format!("c04-{}", zi), Some(tz), &q) {
+            Ok(ans) => {
+                for ((_, u), a) in q.iter().zip(ans.iter()) {
+                    loc.eval();
+                    loc.bucket(bk);
+                    match a {
+                        Ans::Panic(msg) => {
+                            let cls = if msg.starts_with(tzchild::GLUE) { "conversion-loses-the-zone-offset-or-the-instant" } else { "panic-or-error" };
+                            loc.violation(&format!("C04/Local-conversions/{}", cls), json!({"TZ": tz, "unix": u, "message": msg}));
+                        }
+                        Ans::Single(o) => {
+                            if fixed.map_or(false, |f| f != *o) {
+                                loc.violation("C04/Local-conversions/wrong-offset-for-constant-zone", json!({"TZ": tz, "unix": u, "observed": o}));
+                            }
+                        }
+                        other => loc.violation("C04/Local-conversions/unexpected-answer", json!({"TZ": tz, "unix": u, "observed": other.print()})),
+                    }
+                    loc.nontrivial(h2(92, h2(zi as u64, *u as u64)));
+                }
+            }
+            Err(e) => rep.harness_error(format!("C04 local-zone child died: {}", e)),
+        }
+    }
 }
 
 pub fn run(ctx: &Ctx) -> Outcome {
@@ -884,6 +952,7 @@ pub fn run(ctx: &Ctx) -> Outcome {
 
     // 2c. a zone whose offset changes (user-defined TimeZone)
     phase_step_zone(ctx, &rep, bi("variable_offset_zone"));
+    phase_local_child(ctx, &rep, bi("local_zone_conversions"));
 
     // 3. pairs
     {
